@@ -139,6 +139,11 @@ func c02Devs() []c02Dev {
 		s := s
 		add("serial", fmt.Sprint(s), func(c *refcfg.CertCfg, _ *c02Aux) { c.Serial = &s })
 	}
+	// numbers beyond a signed 64-bit integer: refused, or carried as that non-negative number
+	for _, t := range []string{"9223372036854775808", "18446744073709551615", "340282366920938463463374607431768211455"} {
+		t := t
+		add("serial", t, func(c *refcfg.CertCfg, _ *c02Aux) { c.Serial, c.SerialText = nil, t })
+	}
 	add("serial", "unconfigured", func(c *refcfg.CertCfg, _ *c02Aux) { c.Serial = nil })
 	for _, u := range []struct {
 		n string
@@ -396,6 +401,9 @@ func c02Once(x *engine.Ctx, c *c02Case) (violations int) {
 	for _, is := range refx509.LintCert(a.Pem.CertDER, structured) {
 		v("C02/"+is.Class, is.Detail+"  ["+strings.Join(names, " ")+"]")
 	}
+	if a.Cert != nil && cfg.SerialText != "" && a.Cert.Serial != nil && a.Cert.Serial.String() != cfg.SerialText {
+		v("C02/readback/serial/beyond-int64", fmt.Sprintf("serialNumber %s configured, the certificate carries %s  [%s]", cfg.SerialText, a.Cert.Serial, strings.Join(names, " ")))
+	}
 	if a.Cert != nil {
 		diffs, _, err := g.CompareEntity(d, "ent", "")
 		if err == nil {
@@ -479,7 +487,7 @@ func init() {
 	register(&engine.Check{
 		ID:          "C02",
 		Level:       "exploration",
-		Rule:        fmt.Sprintf("baseline configuration +- up to 2 deviations drawn from %d values in 8 dimensions (incl. 5 local time zones of the process) (subject lengths across the 127/128 and 255/256 header transitions at every nesting level, validity across 1950/2049/2050/2200/2262/9999 and before 1700, 8 serial values, 12 unique-id settings, all 56 fitting key+signature algorithm pairs, 3 issuer key types, 25 extension sets incl. raw bodies of 127..65536 octets), all singles and all cross-dimension pairs, plus 200 unconfigured-serial draws; thorough adds every triple over the four small dimensions. Each certificate goes through a DER linter (minimal lengths, INTEGER, BOOLEAN, BIT STRING, OID, time forms, SET OF order, DEFAULT values absent, named-bit-list minimality), decode/re-encode, PEM re-encode, field comparison with the reference model, and crypto/x509 as second acceptor where it supports the curve; through the cert package one certificate context signed twice (every ordered pair of signature algorithms of a family), both certificates through the same lint and parser. non-trivial = distinct deviation set that produced a certificate", len(c02DevList)),
+		Rule:        fmt.Sprintf("baseline configuration +- up to 2 deviations drawn from %d values in 8 dimensions (incl. 5 local time zones of the process) (subject lengths across the 127/128 and 255/256 header transitions at every nesting level, validity across 1950/2049/2050/2200/2262/9999 and before 1700, 11 serial values (three beyond a signed 64-bit integer: refused or carried exactly), 12 unique-id settings, all 56 fitting key+signature algorithm pairs, 3 issuer key types, 25 extension sets incl. raw bodies of 127..65536 octets), all singles and all cross-dimension pairs, plus 200 unconfigured-serial draws; thorough adds every triple over the four small dimensions. Each certificate goes through a DER linter (minimal lengths, INTEGER, BOOLEAN, BIT STRING, OID, time forms, SET OF order, DEFAULT values absent, named-bit-list minimality), decode/re-encode, PEM re-encode, field comparison with the reference model, and crypto/x509 as second acceptor where it supports the curve; through the cert package one certificate context signed twice (every ordered pair of signature algorithms of a family), both certificates through the same lint and parser. non-trivial = distinct deviation set that produced a certificate", len(c02DevList)),
 		Bound:       map[string]string{"deviations from baseline": "<=2 (thorough: 3 over validity/serial/uid/issuer)"},
 		Assumptions: []string{"configurations with manipulations are excluded by the statement", "negative configured serials are outside C03's domain", "unconfigured serials are random: 200+ draws observe the length distribution, the bound (<=20 octets) is also argued from the constant in the source"},
 		Budget:      budgets(quickBudget, thoroughBudget),
